@@ -40,7 +40,9 @@ Ok(r) ==
                           s == Sd[r.s]
                       IN w.lay = s.lay /\ Len(r.o) = Len(s.cmds) /\ \A k \in 1..Len(r.o) : Len(r.o[k].pr) = Len(w.msgs)
                          /\ \E c \in Choices(w) : POk(GTP[r.w][c], RES[r.w][c], s.cmds, r.o)
-    [] r.f = "sk"  -> LET w == Wd[r.w] IN Len(r.upd) = Len(w.msgs) /\ \E c \in Choices(w) : SinkOk(GTP[r.w][c], RES[r.w][c], r.su, r.upd, r.fnd, r.all)
+    [] r.f = "sk"  -> LET w == Wd[r.w] IN Len(r.upd) = Len(w.msgs) /\ \E c \in Choices(w) :
+                                                                      IF w.lay = 5 THEN SinkOkCond(GTP[r.w][c], RES[r.w][c], r.su, r.upd, r.fnd, r.all)
+                                                                      ELSE SinkOk(GTP[r.w][c], RES[r.w][c], r.su, r.upd, r.fnd, r.all)
     [] OTHER -> FALSE
 
 Sig(r) ==
@@ -53,7 +55,7 @@ Sig(r) ==
     [] r.f = "sk"  -> IF \E c \in Choices(Wd[r.w]) : SinkOk(GTW[r.w][c], RES[r.w][c], r.su, r.upd, r.fnd, r.all) THEN <<"star-inside-list", "sink">> ELSE <<"sink">>
     [] OTHER -> <<"family">>
 
-DriftNote(r) == r.f # "ses" \/ SConforms(HTS[r.w], LTS[r.w], RES[r.w][CC(r.w)], Sd[r.s].cmds, r.o) \/ PrintT(<<"VF", "DRIFT", i>>)
+DriftNote(r) == r.f # "ses" \/ Wd[r.w].lay = 5 \/ SConforms(HTS[r.w], LTS[r.w], RES[r.w][CC(r.w)], Sd[r.s].cmds, r.o) \/ PrintT(<<"VF", "DRIFT", i>>)
 Judge == i = 0 \/ (Ok(Recs[i]) /\ DriftNote(Recs[i])) \/ ~PrintT(<<"VF", "BAD", i, Sig(Recs[i])>>)
 
 (* completeness of this shard: for its worlds, every session of the same layout, every sink user *)
